@@ -149,4 +149,15 @@ LexRun(s) == IF s.src = <<>> THEN s.toks ELSE LexRun(LexStep(s))
 
 Lex(text) == LexRun(St(text, <<>>))
 
+(* flag V (tokenise(..., variables_as_digraphs=True)): a variable name is at most ONE name character *)
+DoVariableV(s) ==
+    LET r == Tail(s.src)
+        one == r # <<>> /\ Head(r) \in NameChars
+        kind == IF Head(s.src) = c_set THEN "variable_set" ELSE "variable_get"
+    IN St(IF one THEN Tail(r) ELSE r, Append(s.toks, Tok(kind, IF one THEN <<Head(r)>> ELSE <<>>)))
+LexStepV(s) == IF BranchOf(Head(s.src), Tail(s.src)) = "Variable" THEN DoVariableV(s) ELSE LexStep(s)
+RECURSIVE LexRunV(_)
+LexRunV(s) == IF s.src = <<>> THEN s.toks ELSE LexRunV(LexStepV(s))
+LexV(text) == LexRunV(St(text, <<>>))
+
 ====
